@@ -75,6 +75,8 @@ def distinct_keys(v):
         ks = [k for k, _ in v[1]]
         return None not in ks and len(set(ks)) == len(ks) and all(distinct_keys(e) for _, e in v[1])
     if v[0] == 'a': return all(distinct_keys(e) for e in v[1])
+    if v[0] == 'n': return v[2] == v[2]                      # NaN is not a JSON number (and is not equal to itself)
+    if v[0] == 's': return v[1] is not None
     return v[0] != '?' and v[0] != 'r'
 
 def no_null_member(v):
@@ -119,7 +121,15 @@ def decode_case(line):
     return kind, cs, a, b, claim
 
 # ---------------------------------------------------------------- generators
+class RawV(str): pass            # a cJSON_Raw node
+class NumD:                      # a number node with an explicit double (nan / inf allowed)
+    def __init__(self, d): self.d = d
+class Inval: pass                # a node whose type is cJSON_Invalid
+
 def toks(v, rng, key=None, flags=True):
+    if isinstance(v, RawV): return node_tokens(T_RAW, vs=str(v), key=key)
+    if isinstance(v, NumD): return node_tokens(T_NUMBER, vi=sat_int(v.d), vd=v.d, key=key)
+    if isinstance(v, Inval): return node_tokens(0, key=key)
     fl = rng.choice([0, 0, 0, F_REF, F_CONST, F_REF | F_CONST]) if (rng and flags) else 0
     if key is None: fl &= ~F_CONST
     if v is None: return node_tokens(T_NULL | (fl & ~F_REF), key=key)
@@ -239,6 +249,18 @@ def generate(ctx):
             add_gen(t, rfc7396_value(t, p), cs, ['fixed', 'to=merge'], flags=False)
     for v in [N, 1, 'x', [], Obj(), Obj([('a', N)])]:
         add_gen('NULLARG', v, 1, ['null-from']); add_gen(v, 'NULLARG', 1, ['null-to']); add_gen(v, v, 1, ['identical'])
+    # --- cJSON_Duplicate gives up at CJSON_CIRCULAR_LIMIT: the failed recursion deletes the target and returns NULL
+    def deep_array(levels):
+        t = node_tokens(T_NULL)
+        for _ in range(levels): t = node_tokens(T_ARRAY, children=[t])
+        return t
+    deep = deep_array(10001)                      # node_depth 10002: one level more than cJSON_Duplicate accepts
+    tgt = ' '.join(toks(Obj([('b', 1), ('a', Obj([('x', 'y')]))]), None))
+    keyed = lambda key, t: t[:5] + [htok(key)] + t[6:]
+    for cs in (1, 0):
+        cases.append(Case('mergepatch %d %s %s' % (cs, tgt, ' '.join(deep)), {'tags': ['apply', 'dup-depth-limit', 'robustness']}))
+        p = node_tokens(T_OBJECT, children=[node_tokens(T_NUMBER, vi=1, vd=1.0, key='b'), node_tokens(T_OBJECT, key='a', children=[keyed('d', deep)])])
+        cases.append(Case('mergepatch %d %s %s' % (cs, tgt, ' '.join(p)), {'tags': ['apply', 'dup-depth-limit', 'robustness']}))
     # --- (target, patch)
     n = 1200 if quick else 12000
     for i in range(n):
@@ -290,6 +312,16 @@ def generate(ctx):
         rng.shuffle(f)
         cs = 1 if rng.random() < 0.8 else 0
         add_gen(f, t, cs, ['case-nested']); add_apply(f, derive_patch(rng, f, 3), cs, ['case-nested'])
+    # --- values outside JSON (raw, NaN, infinities, invalid type): robustness and model correspondence only
+    EX = [RawV('x'), RawV('y'), NumD(float('nan')), NumD(float('inf')), NumD(float('-inf')), Inval(), 1, None, 'x']
+    for i in range(50 if quick else 500):
+        def exo(d):
+            if d <= 0 or rng.random() < 0.4: return rng.choice(EX)
+            if rng.random() < 0.3: return [exo(d - 1) for _ in range(rng.choice([1, 2]))]
+            return Obj([(k, exo(d - 1)) for k in rng.sample(['a', 'b', 'c', 'A'], rng.choice([1, 2, 3]))])
+        a = exo(3); b = exo(3) if rng.random() < 0.5 else copy.deepcopy(a)
+        cs = rng.choice([1, 1, 0])
+        add_gen(a, b, cs, ['non-json-values'], flags=False); add_apply(a, b, cs, ['non-json-values'], flags=False)
     # --- numbers equal within the tolerance of compare_double whose integer views differ, at depth
     for i in range(40 if quick else 400):
         x = float(rng.choice([1, 2, 3, 7, 42, 100, 65536, 2147483647, -1, -5]))
@@ -322,7 +354,11 @@ def verdict(c, out, ctx):
     ap = alloc_problem(out)
     if ap: return ap
     try:
-        kind, cs, op1, op2, claim = decode_case(c.line)
+        try: kind, cs, op1, op2, claim = decode_case(c.line)
+        except RecursionError:                      # nesting beyond what the python oracle walks: health checks only
+            kind = c.line.split(' ', 1)[0]; cs = 0; op1 = op2 = None; claim = False
+            if kind == 'mergepatch': return None if strip_suffix(out).split()[-1] == 'U' else 'merge_patch modified its patch operand'
+            return None
         if kind == 'mergepatch':
             t = strip_suffix(out).split()
             if t[-1] != 'U': return 'merge_patch modified its patch operand'
